@@ -36,7 +36,9 @@ Q = 60000
 
 
 def instances(tier, seed):
-    progs = [{'fam': 'MD'}, {'fam': 'MD', 'dw': True}, {'fam': 'MD', 'bn': True}, {'fam': 'MA'}, {'fam': 'ML', 'bn': False}, {'fam': 'ML', 'bn': True}, {'fam': 'M1D'}, {'fam': 'M1A'}]
+    progs = [{'fam': 'MD'}, {'fam': 'MD', 'dw': True}, {'fam': 'MD', 'bn': True}, {'fam': 'MA'}, {'fam': 'ML', 'bn': False}, {'fam': 'ML', 'bn': True}, {'fam': 'M1D'}, {'fam': 'M1A'},
+             # a convolution that pads with a non-default padding mode (the exported layer must pad the same way)
+             {'fam': 'MD', 'HW': 2, 'pad_mode': 'replicate'}, {'fam': 'MD', 'HW': 2, 'pad_mode': 'circular'}]
     out = []
     for s in progs:
         sp = dict(s, wtype='layer', w=[2, 8], a=[4, 8])
